@@ -36,7 +36,7 @@ TEXTS = ["t", "*e*", "`c`", "a b", "x\\]y", "![i](s)", "é", "a\nb", "&amp;", "[
 
 
 def floors(tier):
-    return dict(_floors(tier), **{"triples.conf.hooks": 10000, "triples.conf.nocode": 5000, "triples.hook_changed_result": 2000})
+    return dict(_floors(tier), **{"triples.conf.hooks": 10000, "triples.conf.nocode": 5000, "triples.hook_changed_result": 2000, "acct.own_lines_checked": 50000, "acct.backslash_eol": 3000})
 
 
 def _floors(tier):
@@ -132,6 +132,20 @@ def acct_case(ctx, case):
     for k, v in refs.items():
         if first.get(k) != (k, v["href"], v["title"], tuple(v["map"])):
             viol(ctx, "first-definition-does-not-win", f"label {k!r}: references holds {v} but the first definition event is {first.get(k)}", case)
+            return
+    # "with the map of its own lines": destination and title cannot hold more line breaks than the definition has lines to spare
+    # (unless the source spells a line break as %0A or a character reference)
+    lines = src.split("\n")
+    for (k, href, title, mp) in consumed:
+        if len(mp) != 2:
+            continue
+        seg = "\n".join(lines[mp[0]:mp[1]]).lower()
+        if any(x in seg for x in ("%0a", "&#10;", "&#xa;", "&#x0a;", "&newline;", "&#010;")):
+            continue
+        ctx.count("acct.own_lines_checked")
+        nb = href.upper().count("%0A") + title.count("\n")
+        if nb > mp[1] - mp[0] - 1:
+            viol(ctx, "definition-content-beyond-its-map", f"definition {k!r} with map {list(mp)} ({mp[1] - mp[0]} line(s)) holds {nb} line break(s) in href {href!r} / title {title!r}", case)
             return
     # definitions written by the generator at known lines
     for w in case.get("written", []):
@@ -356,6 +370,15 @@ def run(ctx):
             if prev.strip() == "" or re.match(r"^\s*(>|[-*+]|\d+[.)])?\s*\[[^\]]*\]:", prev) or prev.rstrip().endswith(("'", '"', ")")) or re.search(r"^(#|```|\*\*\*)", prev):
                 ok_written.append(w)
         acct_case(ctx, {"kind": "acct", "src": src, "written": ok_written if rng.random() < 0.0 else []})
+    # a backslash at the end of a line inside / after the destination
+    for k in range(ctx.scale(6000, 150000)):
+        lab = rng.choice(LABELS)
+        d = rng.choice(["", "/u", "<a", "a\\", "<", "(", "/u 't", "/u (", "/u \"a\\"])
+        follow = rng.choice(["x", "'t'", "/v", "", "[x]: /y", "> q", "b>", "b> 't'", "c)", "t'", "  y", "\\"])
+        pre = rng.choice(["", "", "> ", "- "])
+        src = f"{pre}[{lab}]:{rng.choice(['', ' ', '  '])}{d}\\\n{'  ' if pre == '- ' else pre}{follow}\n\n[{lab}]\n"
+        ctx.count("acct.backslash_eol")
+        acct_case(ctx, {"kind": "acct", "src": src, "written": []})
     # written-definition location on clean blocks (every definition preceded by a blank line)
     for k in range(ctx.scale(12000, 300000)):
         n = rng.randint(1, 5)
